@@ -33,12 +33,12 @@ func (c18) Rule() string {
 }
 
 func (c18) RequiredBuckets(tier string) []string {
-	return []string{
+	return append([]string{
 		"complement:all-256", "transcribe:all-256", "complement:features", "complement:involution",
 		"match-table:cell", "match-table:row", "literal-bytes", "metachar-queries",
 		"match:multi", "match:overlap-suppressed", "match:ambiguity", "match:case-fold",
 		"search:overlapping", "search:case-fold", "search:hit", "search:no-hit", "empty-inputs",
-	}
+	}, "cli:search", "cli:search -e", "cli:search --no-complement")
 }
 
 const (
@@ -1138,4 +1138,5 @@ func (m c18) Run(c *fw.Ctx) {
 			m.match(c, "multi", seq, q)
 		}
 	}
+	cliSearch(c)
 }
